@@ -441,7 +441,7 @@ PROPS["C17"] = dict(
     tests=[
         dict(name="model", run="^TestKeyringModel$", quick=dict(shards=4, checks=20000, timeout=300), thorough=dict(shards=8, checks=500000, timeout=1800)),
         dict(name="concurrent", run="^TestKeyringConcurrent$", quick=dict(shards=4, checks=100, timeout=600), thorough=dict(shards=5, checks=3000, timeout=3400)),
-        dict(name="concurrent-race", run="^TestKeyringConcurrent$", race=True, quick=dict(shards=4, checks=60, timeout=600), thorough=dict(shards=5, checks=1500, timeout=3400)),
+        dict(name="concurrent-race", run="^TestKeyringConcurrent$", race=True, quick=dict(shards=4, checks=60, timeout=600), thorough=dict(shards=5, checks=250, timeout=3400)),
         dict(name="rotation", run="^TestKeyRotation$", quick=dict(shards=8, checks=12, timeout=600), thorough=dict(shards=12, checks=500, timeout=3000)),
         dict(name="rotation-race", run="^TestKeyRotation$", race=True, quick=dict(shards=4, checks=4, timeout=900), thorough=dict(shards=4, checks=150, timeout=3400)),
     ],
